@@ -85,6 +85,10 @@ def deep_diff(left, right, path='', out=None, limit=8):
         if left != right:
             out.append('%s: %r != %r' % (path, left, right))
         return out
+    if getattr(type(left), 'VERIF_COMPARE_WITH_EQ', False):
+        if not left == right:
+            out.append('%s: objects differ' % path)
+        return out
     # generic objects: compare their state
     lstate = getattr(left, '__dict__', None)
     rstate = getattr(right, '__dict__', None)
